@@ -578,6 +578,28 @@ func (p *prop) runBatch(c core.Case, w *core.Worker, res *core.Result, r *rand.R
 		res.Fail("execute", "execute-error", "Execute(runtimedoc) failed: "+clip(run.Err+run.Panic, 1200), nil)
 		return
 	}
+	// generate again over the result (the package now contains its own generated methods): the output must still be
+	// there and unchanged; the compiled check below then runs against this regenerated output
+	first := map[string]string{}
+	for _, pkk := range pks {
+		if g1, ok := m.Read(filepath.Join(pkk.name, "zz_generated.runtimedoc.go")); ok {
+			first[pkk.name] = g1
+		}
+	}
+	run2 := specgen.RunInProcess(m.Root, specgen.Args{Entrypoint: entries, OutputFileBaseName: "zz_generated"}, []specgen.GenSpec{{Name: "runtimedoc", Real: true}})
+	res.Inc("gengo_runs")
+	if run2.Failed {
+		res.Fail("execute", "execute-error second run", "Execute(runtimedoc) failed when run again over its own output: "+clip(run2.Err+run2.Panic, 1200), nil)
+		return
+	}
+	for _, pkk := range pks {
+		g2, ok2 := m.Read(filepath.Join(pkk.name, "zz_generated.runtimedoc.go"))
+		g1, ok1 := first[pkk.name]
+		res.Inc("regenerations_compared")
+		if ok1 != ok2 || g1 != g2 {
+			res.Fail("compiles-and-runs", "regenerated output differs", fmt.Sprintf("package %s: generating again over the generated package changed zz_generated.runtimedoc.go (existed after run 1: %v, after run 2: %v)\n--- run 1:\n%s\n--- run 2:\n%s", pkk.name, ok1, ok2, clip(g1, 800), clip(g2, 800)), nil)
+		}
+	}
 	for _, pkk := range pks {
 		m.MustWrite(filepath.Join(pkk.name, "c16_test.go"), testFile(pkk.name, pkk.qs))
 	}
